@@ -225,6 +225,11 @@ def compare(tv, ts, cls, isfloat, w):
         if wit:
             return R.REFUTED, 'different float results on %s: vector lane is %s, scalar overload is %s ; vector: %s ; scalar: %s' % (
                 wit[0], FC.name(wit[1]), FC.name(wit[2]), tm.show(tv, 6), tm.show(ts, 6))
+        # an established difference at an explicit input: the two derived terms evaluated by the concrete term evaluator at float bit patterns (integers, ties,
+        # signed zeros, large and small magnitudes).  Identical-result classes may not differ at all (NaN payloads aside); composite formulas only beyond rounding.
+        fw = float_witness(tv, ts, w, cls)
+        if fw:
+            return R.REFUTED, 'vector lane and scalar overload return different values for %s: vector %s, scalar %s ; vector: %s ; scalar: %s' % (fw[0], fw[1], fw[2], tm.show(tv, 5), tm.show(ts, 5))
         return R.UNDECIDED, 'terms differ: vector %s ; scalar %s' % (tm.show(tv, 5), tm.show(ts, 5))
     # integer / bool results
     if w == 8 and _is_bool(tv) and _is_bool(ts):
@@ -257,6 +262,35 @@ def compare(tv, ts, cls, isfloat, w):
     if wit:
         return R.REFUTED, 'vector lane and scalar overload differ for the input bit patterns %s: vector %#x, scalar %#x (terms differ at %s: vector %s ; scalar %s)' % (wit[0], wit[1], wit[2], d[0], tm.show(d[1], 3), tm.show(d[2], 3))
     return R.UNDECIDED, 'terms differ at %s: vector %s ; scalar %s' % (d[0], tm.show(d[1], 5), tm.show(d[2], 5))
+
+
+_FW_VALUES = [1.0, -1.0, 3.0, -3.0, 2.0, 0.0, -0.0, 0.5, -0.5, 2.5, -2.5, 1.5, 0.25, 0.75, -0.75, 5.0, 4.0, 7.25, -7.25, 1e-3, 123.456, -100.0, 8388609.0, 1e10, 1e-20, 3.5]
+
+
+def float_witness(tv, ts, w, cls):
+    from laneflow import ceval as CE
+    import itertools
+    ins = sorted({x for t in (tv, ts) for x in tm.walk(t) if x.op == 'in'}, key=lambda q: q.id)
+    if not ins or len(ins) > 3 or any(x.w != w for x in ins) or w not in (32, 64):
+        return None
+    vals = _FW_VALUES if len(ins) == 1 else _FW_VALUES[:14] if len(ins) == 2 else _FW_VALUES[:8]
+    for combo in itertools.product(vals, repeat=len(ins)):
+        env = {x: CE.f2b(w, v) for x, v in zip(ins, combo)}
+        try:
+            a, b = CE.evaluate(tv, env), CE.evaluate(ts, env)
+        except CE.NoValue:
+            continue
+        if a == b:
+            continue
+        fa, fb = CE.b2f(w, a), CE.b2f(w, b)
+        if fa != fa and fb != fb:
+            continue
+        if cls == 'comp':
+            # composite formulas agree within rounding: only a gross difference counts
+            if fa != fa or fb != fb or abs(fa - fb) <= 1e-3 * max(1.0, abs(fa), abs(fb)):
+                continue
+        return ', '.join('%s = %r' % (tm.show(x), v) for x, v in zip(ins, combo)), repr(fa), repr(fb)
+    return None
 
 
 def certain_dependence(t, foreign, ty):
